@@ -3,6 +3,8 @@
 //! usage: verif-sim check <property> <quick|thorough> | worker ... | replay <file> | self <what>
 
 mod check;
+mod conc;
+mod conc_check;
 mod engine;
 mod gen;
 mod hist;
@@ -34,7 +36,7 @@ fn install_panic_hook() {
         // managed threads: keep quiet, remember where it happened (the message travels with the payload)
         let loc = info.location().map(|l| format!("{}:{}", l.file(), l.line())).unwrap_or_default();
         LAST_PANIC_LOC.with(|l| *l.borrow_mut() = loc.clone());
-        if engine::current_tid().is_none() && std::env::var("VERIF_QUIET_PANICS").is_err() {
+        if std::env::var("VERIF_SHOW_PANICS").is_ok() || engine::current_tid().is_none() && std::env::var("VERIF_QUIET_PANICS").is_err() {
             eprintln!("panic outside a managed thread at {loc}: {info}");
         }
     }));
@@ -99,7 +101,8 @@ fn main() {
             let prop = args.get(2).cloned().unwrap_or_default();
             let thorough = args.get(3).map(|s| s == "thorough").unwrap_or(false) || std::env::var("VERIF_TIER").map(|t| t == "thorough").unwrap_or(false) && args.get(3).is_none();
             let code = match prop.as_str() {
-                "C03" | "C04" | "C05" | "C06" | "C10" | "C12" | "C13" => check::check_hist(&prop, thorough),
+                "C03" | "C04" | "C05" | "C06" | "C10" | "C11" | "C12" | "C13" => check::check_hist(&prop, thorough),
+                "C15" | "C16" => conc_check::check_conc(&prop, thorough),
                 _ => {
                     eprintln!("unknown or unclaimed property {prop}");
                     2
@@ -117,6 +120,16 @@ fn main() {
             let out = check::hist_worker(prop, thorough, base, idx, stride, total, std::path::Path::new(&args[8]));
             println!("{}", serde_json::to_string(&out).unwrap());
         }
+        Some("conc-worker") => {
+            let prop = &args[2];
+            let thorough = args[3] == "thorough";
+            let base: u64 = args[4].parse().unwrap();
+            let idx: u64 = args[5].parse().unwrap();
+            let stride: u64 = args[6].parse().unwrap();
+            let total: u64 = args[7].parse().unwrap();
+            let out = conc_check::conc_worker(prop, thorough, base, idx, stride, total, std::path::Path::new(&args[8]));
+            println!("{}", serde_json::to_string(&out).unwrap());
+        }
         Some("replay") => {
             let path = args.get(2).cloned().unwrap_or_default();
             let text = match std::fs::read_to_string(&path) {
@@ -130,6 +143,13 @@ fn main() {
             let code = match v.get("kind").and_then(|k| k.as_str()) {
                 Some("hist") => match serde_json::from_value::<check::HistReplay>(v) {
                     Ok(rep) => check::replay_hist(&rep),
+                    Err(e) => {
+                        eprintln!("bad replay file: {e}");
+                        2
+                    }
+                },
+                Some("conc") => match serde_json::from_value::<conc_check::ConcReplay>(v) {
+                    Ok(rep) => conc_check::replay_conc(&rep),
                     Err(e) => {
                         eprintln!("bad replay file: {e}");
                         2
@@ -154,6 +174,7 @@ fn main() {
             let mut nerr = 0;
             let mut maxn = 0;
             let mut kinds: std::collections::BTreeMap<String, u64> = Default::default();
+            let mut edges: std::collections::BTreeMap<String, u64> = Default::default();
             let mut errk: std::collections::BTreeMap<String, u64> = Default::default();
             let show = std::env::var("SHOW").is_ok();
             for seed in first..first + runs {
@@ -177,6 +198,8 @@ fn main() {
                     keep_trace: false,
                     reload_every: 0,
                     stop_at_first: true,
+                    harvest_edges: std::env::var("EDGES").is_ok(),
+                    check_from: 0,
                 };
                 let r = hist::run_history(&cfg);
                 if show {
@@ -191,6 +214,7 @@ fn main() {
                 nerr += r.errs;
                 maxn = maxn.max(r.max_nodes_seen);
                 for (k, v) in &r.kinds { *kinds.entry(k.clone()).or_default() += v; }
+                for (k, v) in &r.edges { *edges.entry(k.clone()).or_default() += v; }
                 for (k, v) in &r.err_kinds { *errk.entry(k.clone()).or_default() += v; }
                 for v in &r.violations {
                     let e = sigs.entry(format!("{} {}", v.prop, v.sig)).or_insert((0, v.detail.clone(), seed));
@@ -198,6 +222,13 @@ fn main() {
                 }
             }
             println!("{runs} histories, {nops} ops, {nerr} errors, max nodes {maxn}, {:?}", t0.elapsed());
+            if !edges.is_empty() {
+                let nc: Vec<_> = edges.iter().filter(|(e, _)| !conc::edge_conforms(e)).collect();
+                println!("{} edges, {} against the lock order:", edges.len(), nc.len());
+                for (e, n) in nc {
+                    println!("  {n:8} {e}");
+                }
+            }
             if std::env::var("VERBOSE").is_ok() {
                 println!("kinds: {kinds:?}");
                 println!("errors: {errk:?}");
